@@ -174,13 +174,20 @@ Proof. vm_compute. reflexivity. Qed.
 Lemma ex_sum_instructor_var : sum_run all_entered sum_author (mkSum [45; 51] [51] [110; 94; 51; 43; 48; 42; 122] n_n) = GEvalError EUndefVar.
 Proof. vm_compute. reflexivity. Qed.
 
-(* REFUTED: limits 2..2 with even_odd = 1 leave no index, so the summand is never evaluated and never scope-checked:
-   the instructor variable z, the undefined name qq and the undefined suffix in 2k are all graded correct *)
+(* limits 2..2 with even_odd = 1 leave no index; the names of the summand are checked all the same (regression witness
+   of the repaired SumGrader.evaluate_sum): the instructor variable z, the undefined name qq and the undefined suffix
+   in 2k are rejected, the harmless summand 1 is graded *)
 Lemma ex_sum_empty_range :
-  sum_run all_entered sum_author (mkSum [50] [50] n_z n_n) = credit
-  /\ sum_run all_entered sum_author (mkSum [50] [50] [113; 113] n_n) = credit
-  /\ sum_run all_entered sum_author (mkSum [50] [50] [50; 107] n_n) = credit.
+  sum_run all_entered sum_author (mkSum [50] [50] n_z n_n) = GEvalError EUndefVar
+  /\ sum_run all_entered sum_author (mkSum [50] [50] [113; 113] n_n) = GEvalError EUndefVar
+  /\ sum_run all_entered sum_author (mkSum [50] [50] [50; 107] n_n) = GEvalError EUndefSuffix
+  /\ sum_run all_entered sum_author (mkSum [50] [50] [49] n_n) = credit.
 Proof. vm_compute. repeat split; reflexivity. Qed.
+
+(* an instructor variable cannot be the student's summation variable: limits -3..3, summand z^3, variable z *)
+Lemma ex_sum_instructor_dummy :
+  sum_run all_entered sum_author (mkSum [45; 51] [51] [122; 94; 51] n_z) = GSummationError.
+Proof. vm_compute. reflexivity. Qed.
 
 (* functions are read off the parse of the summand, so they are still checked over an empty range *)
 Lemma ex_sum_empty_range_function :
@@ -209,7 +216,7 @@ Lemma ex_report_undefined :
   /\ report [n_x; [121]; n_a1] [120; 42; 97; 95; 123; 49; 125; 43; 121] = None.
 Proof. vm_compute. repeat split; reflexivity. Qed.
 
-(* REFUTED (rejected, but not "as undefined"): ... x*a_{1}+0*A_{1} is not: the suggestion "(did you mean 'a_{1}'?)" is
-   appended to the message template before .format() is applied, which fails on the braces *)
-Lemma ex_report_brace_variant : report [n_x; [121]; n_a1] [120; 42; 97; 95; 123; 49; 125; 43; 48; 42; 65; 95; 123; 49; 125] = Some GGenericError.
+(* ... and so is x*a_{1}+0*A_{1}, although the suggestion "(did you mean 'a_{1}'?)" contains braces
+   (regression witness of the repaired check_scope message formatting) *)
+Lemma ex_report_brace_variant : report [n_x; [121]; n_a1] [120; 42; 97; 95; 123; 49; 125; 43; 48; 42; 65; 95; 123; 49; 125] = Some (GEvalError EUndefVar).
 Proof. vm_compute. reflexivity. Qed.
